@@ -1,9 +1,87 @@
-// vm_terminal.h — terminal events of a program (C07): exit, return from main, handled signals
+// vm_terminal.h — terminal events of a program (C07): exit(n), handled signals raised or really faulted.
+// The child writes a PRE record (what was issued and completed so far, where the files are, run statistics),
+// then really exits / dies; the parent evaluates wait status and file contents (Profile::judge_parent).
 #pragma once
 namespace vs
 {
 template <class FO>
-void VM<FO>::terminal(int, Op const&)
+void VM<FO>::terminal(int tid, Op const& op)
 {
+  std::ostringstream o;
+  o << "terminal " << op.k << " " << op.v[0] << " " << tid << "\n";
+  for (size_t i = 0; i < sinks.size(); ++i)
+  {
+    if (sink_type[i] == 1)
+    {
+      o << "file " << i << " " << sink_path[i] << "\n";
+    }
+  }
+  // statements issued so far: id thread logger result returned
+  std::map<int64_t, std::pair<Ev const*, Ev const*>> st;
+  for (auto const& e : H.ev)
+  {
+    if (e.type == EV_LOG_INVOKE)
+    {
+      st[e.a].first = &e;
+    }
+    else if (e.type == EV_LOG_RETURN)
+    {
+      st[e.a].second = &e;
+    }
+  }
+  for (auto const& kv : st)
+  {
+    if (!kv.second.first)
+    {
+      continue;
+    }
+    Ev const* inv = kv.second.first;
+    Ev const* ret = kv.second.second;
+    o << "stmt " << kv.first << " " << inv->thread << " " << inv->b << " " << (ret ? ret->b : -3) << " " << (ret ? 1 : 0) << " "
+      << inv->s << "\n";
+  }
+  sim::Stats const& s = sim::stats();
+  o << "stats " << s.steps << " " << s.switches << " " << s.preemptions << " " << s.now_ns << " " << s.hash << " " << s.stalls_fired << "\n";
+  record(EV_TERMINAL, op.k, op.v[0]);
+  write_pre_record(o.str());
+  ++faults_fired[13];
+  if (op.k == OP_EXIT || op.k == OP_RETURN)
+  {
+    std::exit(static_cast<int>(op.v[0]));
+  }
+  int sig = static_cast<int>(op.v[0]);
+  if (op.k == OP_RAISE)
+  {
+    ::raise(sig);
+  }
+  else
+  {
+    switch (sig)
+    {
+    case SIGSEGV:
+    {
+      volatile int* p = nullptr;
+      *p = 1;
+      break;
+    }
+    case SIGABRT:
+      ::abort();
+    case SIGFPE:
+    {
+      volatile int zero = 0;
+      volatile int r = 7 / zero;
+      (void)r;
+      break;
+    }
+    case SIGILL:
+      __builtin_trap(); // ud2
+    default:
+      ::raise(sig);
+      break;
+    }
+  }
+  // a handled signal never returns control here (the process dies or exits)
+  write_pre_record("survived\n");
+  _exit(5);
 }
 } // namespace vs
